@@ -3,7 +3,7 @@
 (* CheckValue (_quantity.py) and the Array validation (_array.py: NaN-skipping min/max scan,  *)
 (* two checks; tuple-of-tuples branch) are transcribed; the property side is the per-element  *)
 (* statement in the category's default unit.  NaN / +inf / -inf are tokens with the IEEE      *)
-(* comparison table.  Units: du (default), sc (scaled by 1/8), af (offset 4): exact in binary.*)
+(* comparison table.  Units: du (default), sc (scaled by 1/8), af (offset 4), rv (6 - x): exact in binary.*)
 (* InfBecomesNaN = TRUE is the negative control (the pinned tree's defect F20).               *)
 EXTENDS Rat, FiniteSets, TLC, SequencesExt
 
@@ -24,11 +24,14 @@ CONSTANTS InfBecomesNaN,     \* TRUE: 0*inf in the conversion formula (negative 
           MaxLen
 Units == [du |-> [f |-> <<1, 1>>, o |-> <<0, 1>>, ident |-> TRUE],
           sc |-> [f |-> <<1, 8>>, o |-> <<0, 1>>, ident |-> FALSE],     \* scaled
-          af |-> [f |-> <<1, 1>>, o |-> <<4, 1>>, ident |-> FALSE]]     \* affine
+          af |-> [f |-> <<1, 1>>, o |-> <<4, 1>>, ident |-> FALSE],     \* affine
+          rv |-> [f |-> <<-1, 1>>, o |-> <<6, 1>>, ident |-> FALSE]]    \* order-reversing (a depth against an elevation): 6 - x
+\* an infinity through a conversion with a negative factor changes its sign
+InfThrough(u, x) == IF Units[u].f[1] < 0 THEN (IF x = PINF THEN NINF ELSE PINF) ELSE x
 ToDefault(u, x) ==
   IF u = "du" THEN x                                   \* same unit: no conversion at all
   ELSE IF x = NAN THEN NAN
-  ELSE IF ~IsNum(x) THEN (IF InfBecomesNaN THEN NAN ELSE x)
+  ELSE IF ~IsNum(x) THEN (IF InfBecomesNaN THEN NAN ELSE InfThrough(u, x))
   ELSE RAdd(RMul(Units[u].f, x), Units[u].o)
 
 NoLim == [has |-> FALSE, v |-> <<0, 1>>]
@@ -66,7 +69,7 @@ ArrayCheck(cfg, u, xs) ==
 Sat(cfg, y) == /\ (cfg.min.has => IF cfg.minx THEN Gt(y, cfg.min.v) ELSE Ge(y, cfg.min.v))
                /\ (cfg.max.has => IF cfg.maxx THEN Lt(y, cfg.max.v) ELSE Le(y, cfg.max.v))
 \* the physical amount of x written in u, in the default unit (infinities stay infinite)
-Phys(u, x) == IF IsNum(x) THEN RAdd(RMul(Units[u].f, x), Units[u].o) ELSE x
+Phys(u, x) == IF IsNum(x) THEN RAdd(RMul(Units[u].f, x), Units[u].o) ELSE IF x = NAN THEN x ELSE InfThrough(u, x)
 ElementOK(cfg, u, x) == x = NAN \/ Sat(cfg, Phys(u, x))
 Violates(cfg, u, x, rep) ==
   LET y == Phys(u, x) IN
